@@ -3,8 +3,8 @@ usage: store_seeded.py  (reads /tmp/mut, /tmp/seedeval)"""
 import json, pathlib, re, shutil
 import sys
 ROUND = sys.argv[1] if len(sys.argv) > 1 else "1"
-MUT = pathlib.Path("/tmp/mut" if ROUND == "1" else "/tmp/mut2")
-EV = pathlib.Path("/tmp/seedeval" if ROUND == "1" else "/tmp/seedeval2")
+MUT = pathlib.Path({"1": "/tmp/mut", "2": "/tmp/mut2", "3": "/tmp/mut3"}[ROUND])
+EV = pathlib.Path({"1": "/tmp/seedeval", "2": "/tmp/seedeval2", "3": "/tmp/seedeval3"}[ROUND])
 LOGS = pathlib.Path("/tmp/evalcopies/logs")
 OUT = pathlib.Path("/verif/seeded")
 OUT.mkdir(exist_ok=True)
@@ -21,12 +21,12 @@ for d in sorted(MUT.glob("C??/m?")):
         print("NOT CONFIRMED", pid, m, r)
         continue
     meta0 = json.loads((d / "meta.json").read_text())
-    name = f"{pid}_{m}" if ROUND == "1" else f"{pid}_r2{m}"
+    name = f"{pid}_{m}" if ROUND == "1" else f"{pid}_r{ROUND}{m}"
     tgt = OUT / name
     tgt.mkdir(exist_ok=True)
     shutil.copy(d / "patch.diff", tgt / "patch.diff")
     demo = (d / "demo.py").read_text().replace("/tmp/agent_stubs", "/verif/stubs")
-    demo = re.sub(r"/tmp/wt2?/C\d\d(/src)?", "/repo/src", demo)
+    demo = re.sub(r"/tmp/wt[23]?/C\d\d(/src)?", "/repo/src", demo)
     (tgt / "demo.py").write_text(demo)
     # detection by the property's own check (quick tier), from the last run of tools/seed_check.sh
     # detection: the last scratch-copy run of the property's own check against this change (tools/eval_patch.sh, tag S<round><id><m>)
@@ -59,8 +59,9 @@ for d in sorted(MUT.glob("C??/m?")):
         "needs_to_manifest": meta0.get("needs_to_manifest"),
         "why_existing_tests_pass": meta0.get("why_tests_pass"),
         "origin": "written by a fresh sub-agent that was given only the text of the property and a scratch git worktree of the repository (nothing from /verif)"
-                  + ("; rebased by hand onto the repaired tree (the original patch no longer applied after fix 6a107e8)" if (d / "patch_orig.diff").exists() else "")
-        + ("; second round: the agent was also told which two changes were already known for this property and asked for different mechanisms" if ROUND == "2" else ""),
+                  + ("; rebased (git apply --3way) onto the repaired tree: the original patch no longer applied after a fix: commit touched the same lines" if (d / "patch_orig.diff").exists() else "")
+        + ("; second round: the agent was also told which two changes were already known for this property and asked for different mechanisms" if ROUND == "2" else "")
+        + ("; third round: the agent was told the mechanisms of the four changes already known for this property and asked for three further, different ones" if ROUND == "3" else ""),
         "what_the_agent_ran": meta0.get("ran"),
         "what_i_ran_to_confirm": {
             "cmd": f"tools/seed_confirm.sh {pid} {m}  (scratch worktree of /repo HEAD; demo.py on the clean tree, then with patch.diff applied; then the full pinned test suite with the patch)",
